@@ -2,4 +2,4 @@
 Require Import F64 Dec Types Generic Lang Opt IO GenUnicode Front Builtins Time Json Env Regex RegexExpand StdEnv.
 Require Extraction. Require Import ExtrOcamlBasic.
 Extraction Language OCaml.
-Extraction "model.ml" run_case run_opt num_of_digits digits_of_num Front.compile Front.scan_raw Front.conv_tok call_builtin call_time Lang.vcmp Lang.veq roundtrip run_ops empty_env to_bits of_bits GenUnicode.u_alpha GenUnicode.u_num GenUnicode.u_lower GenUnicode.u_upper GenUnicode.u_cased GenUnicode.u_ignorable re_is_match re_find re_capture re_replace re_replace_x run_script unmodelled_mark has_nullable_loop Builtins.usize_from.
+Extraction "model.ml" run_case run_opt num_of_digits digits_of_num Front.compile Front.scan_raw Front.conv_tok call_builtin call_time Lang.vcmp Lang.veq roundtrip run_ops empty_env to_bits of_bits GenUnicode.u_alpha GenUnicode.u_num GenUnicode.u_lower GenUnicode.u_upper GenUnicode.u_cased GenUnicode.u_ignorable re_is_match re_find re_capture re_replace re_replace_x run_script eval_static unmodelled_mark has_nullable_loop Builtins.usize_from.
